@@ -258,6 +258,9 @@ func GenOp(t *rapid.T, p *Profile, kind string, nAcc int) Op {
 		if oneIn(t, 10, "anyOrder") {
 			op.Rule = 1
 		}
+		if oneIn(t, 16, "batchDecide") {
+			op.Rule = 2 // batch approval: one decision per order still open for this signer, in one transaction
+		}
 		op.Flag = uni(t, 10, "accept") < 7
 	case EntWL:
 		op.Flag = uni(t, 10, "add") < 7
@@ -267,6 +270,9 @@ func GenOp(t *rapid.T, p *Profile, kind string, nAcc int) Op {
 		}
 	case WrkReg, BcnReg:
 		op.Str = strRule(t)
+		if oneIn(t, 12, "regAgain") {
+			op.Rule, op.Ref = 2, uniRange(t, 0, 7, "regAgainRef")
+		}
 		if p.LockedActors && uni(t, 3, "lockedActor") != 0 {
 			op.Rule = 1 // resolved at build time: an account with completed purchase orders, if any
 		}
